@@ -1,6 +1,8 @@
 """C06 - the decompiler always answers; its SsbScript fallback is marked and exact (DESIGN.md 4, C06)."""
 from __future__ import annotations
 
+from hypothesis import strategies as st
+
 from vf import canon, decomp, gen_prog, gen_ssb, model, parse
 from vf.core import Failure, call_guard
 from vf.cut import compile_text
@@ -25,7 +27,13 @@ CASES = {"quick": 6400, "thorough": 80000}
 
 
 def strategy(tier):
-    return decomp.input_strategy(w1=1, w2=2, w3=4)
+    from vf.core import weighted
+
+    # a context op in front of ANY op (another context op, a branch, a switch header, a case, a flow-ending op): outside
+    # the domain of the behavioural checks, inside C06's (totality, marker, exact fallback)
+    ctx_any = st.tuples(gen_ssb.free_graphs(), st.lists(st.tuples(st.integers(0, 9), st.integers(0, 40), st.sampled_from(["lives", "object", "performer"]), st.integers(0, 300)), min_size=1, max_size=2)).map(
+        lambda t: dict(t[0], insert_ctx=[list(x) for x in t[1]]))
+    return weighted((6, decomp.input_strategy(w1=1, w2=2, w3=4)), (1, ctx_any))
 
 
 def evaluate(case, stt):
@@ -34,7 +42,11 @@ def evaluate(case, stt):
     if c is None:
         return fails
     stt.count(f"stratum:{c.get('stratum')}")
-    ok, why = gen_ssb.well_formed(c)
+    ctx_any = bool(c.get("insert_ctx"))
+    if ctx_any:
+        c = gen_ssb.insert_ctx_ops(c, c["insert_ctx"])
+        stt.count("context_op_in_front_of_any_op")
+    ok, why = gen_ssb.well_formed(c, ctx_any=ctx_any)
     if not ok:
         stt.count("discard_not_well_formed")
         return fails
@@ -85,6 +97,14 @@ def evaluate(case, stt):
         _, exc = call_guard(lambda: parse.parse_program(text))
         if exc is not None:
             fails.append(Failure("unmarked_unparsable", f"text is neither ExplorerScript nor marked as SsbScript: {exc[1]}\n{desc}\n--- text:\n{text[:1500]}"))
+        elif ctx_any:
+            # for the inputs C02 does not look at: unmarked text must at least be ExplorerScript the compiler takes,
+            # unless the input is one of C02's known findings (undefined labels ...)
+            known = (gen_ssb.foreign_targets_not_locally_reachable(c) or gen_ssb.inexpressible_case_ops(c) or gen_ssb.case_jumps_backward_or_into_chain(c)
+                     or gen_ssb.degenerate_branch_in_loop(c) or gen_ssb.call_on_cycle(c) or gen_ssb.call_target_only_reachable_by_call(c))
+            _, exc = call_guard(lambda: compile_text(text))
+            if exc is not None and not known:
+                fails.append(Failure("unmarked_not_explorerscript:" + exc[0], f"text carries no marker but the compiler rejects it: {exc[1]}\n{desc}\n--- text:\n{text[:1500]}"))
     return fails
 
 
